@@ -30,10 +30,13 @@ class HelpResolver(DefaultResolver):
     def create_resolved_command(
         self, result
     ):  # type: (ResolveResult) -> ResolvedCommand
-        result.command.config.enable_lenient_args_parsing()
+        config = result.command.config
+        previous = config._lenient_args_parsing
 
-        resolved_command = super(HelpResolver, self).create_resolved_command(result)
+        config.enable_lenient_args_parsing()
 
-        result.command.config.disable_lenient_args_parsing()
-
-        return resolved_command
+        try:
+            return super(HelpResolver, self).create_resolved_command(result)
+        finally:
+            # Leave the configuration as it was found, also on errors
+            config._lenient_args_parsing = previous
